@@ -48,7 +48,8 @@ def _cases(draw, dmax):
     a = draw(S.operand(d, classes=classes, max_len=cap))
     b = draw(S.operand(d, classes=classes, max_len=cap)) if op != "normsq" else None
     return {"cfg": cfg, "op": op, "a": a, "b": b, "mode": draw(st.sampled_from(["generic", "generic", "frac"])),
-            "cse": draw(st.booleans()), "symcls": draw(st.sampled_from([None, None, None, "sympy"]))}
+            "cse": draw(st.booleans()), "symcls": draw(st.sampled_from([None, None, None, "sympy"])),
+            "wrapper": draw(st.integers(0, 4)) == 0}
 
 
 def cases(tier):
@@ -113,6 +114,8 @@ def evaluate(case):
     opts = {"cse": case["cse"]}
     if case.get("symcls"):
         opts["symcls"] = case["symcls"]
+    if case.get("wrapper"):
+        opts["wrapper"] = True
     alg = kd.build_algebra(cfg, **opts)
     ka = case["a"]["keys"]
     va = _values(case["a"], case["mode"], "a")
@@ -149,14 +152,30 @@ def evaluate(case):
     if not ok:
         raise Violation("composition-vs-reference", op, f"{op} differs from the reference composition: {why}",
                         observed=kd.show(got), expected=kd.show(exp))
+    # the same elements stored in another key order on the same algebra, then the original order again
+    if len(ka) > 1 or (kb is not None and len(kb) > 1):
+        x2 = kd.mk(alg, ka[::-1], va[::-1])
+        for what, xx in (("re-ordered first operand", x2), ("original order after the re-ordered call", x)):
+            if op == "normsq":
+                r2 = _call(lambda: xx.normsq(), "composition", op, what)
+            elif op == "sw":
+                r2 = _call(lambda: xx >> y, "composition", op, what)
+            else:
+                r2 = _call(lambda: xx @ y, "composition", op, what)
+            ok, why = kd.elem_equal(kd.to_dict(r2, op=op), exp)
+            if not ok:
+                raise Violation("composition-vs-reference", op, f"{what} (keys {list(xx.keys())}, wrapper={bool(case.get('wrapper'))}): {why}",
+                                observed=kd.show(kd.to_dict(r2)), expected=kd.show(exp))
     fired = bool(support - set(got))
     big = case["mode"] == "generic" and any(isinstance(v, Q) and v.nterms() >= 3 for v in exp.values())
     noncanon = (not S.is_canonical(ka)) or (kb is not None and not S.is_canonical(kb))
     labels = [f"op:{op}", f"d:{ref.d}", f"mode:{case['mode']}", f"cse:{case['cse']}", f"symcls:{case.get('symcls')}",
               "order:noncanonical" if noncanon else "order:canonical", "basis:custom" if cfg.get("basis") else "basis:default"]
+    if case.get("wrapper"):
+        labels.append("opt:wrapper")
     if fired:
         labels.append("filter-fired")
-    key = [cfg["sig"], cfg.get("start"), cfg.get("basis"), op, ka, kb, case["cse"], case.get("symcls"), case["mode"]]
+    key = [cfg["sig"], cfg.get("start"), cfg.get("basis"), op, ka, kb, case["cse"], case.get("symcls"), case["mode"], bool(case.get("wrapper"))]
     return Info(fired or big, labels, key, sample={"result_keys": sorted(got), "dropped": sorted(support - set(got))} if fired else None)
 
 
